@@ -541,7 +541,9 @@ def main(argv=None):
               % (prop, e))
         print(json.dumps(evidence["coverage"], indent=1)[:3000])
         return 2
-    edir = os.path.join(VERIF_DIR, "evidence")
+    # VERIF_EVIDENCE_DIR is only used by tools/seeded.py so that runs against a
+    # patched scratch copy do not overwrite the evidence about /repo
+    edir = os.environ.get("VERIF_EVIDENCE_DIR") or os.path.join(VERIF_DIR, "evidence")
     os.makedirs(edir, exist_ok=True)
     with open(os.path.join(edir, prop + ".json"), "w") as fh:
         json.dump(evidence, fh, indent=1, sort_keys=True)
